@@ -107,9 +107,11 @@ var codecs = []*codec{
 			pt, ok := curve.LiftX(new(big.Int).SetBytes(e[1:33]), uint(e[0]&1))
 			if !ok {
 				if allZero(e[1:33]) {
-					// x = 0 is not the abscissa of a curve point (5 is a quadratic non-residue mod p); own class because
-					// the library turns it into the point at infinity instead of a finite off-curve point
-					return mustReject, "x=0", nil
+					// x = 0 is not the abscissa of a curve point (5 is a quadratic non-residue mod p). The library decodes
+					// prefix||0..0 as the point at infinity (explicit branch in UnmarshalCompressed); G1.MarshalCompressed
+					// documents infinity as undefined, so no canonical compressed form exists: accept or reject, but an
+					// accepted result must be the point at infinity; the re-encoding is not compared (noReenc below).
+					return either, "x=0(infinity-form)", make([]byte, 64)
 				}
 				return mustReject, "off-curve", nil
 			}
@@ -160,12 +162,21 @@ var codecs = []*codec{
 				return mustAccept, "on-curve", nil
 			}
 			if allZero(e[1:65]) {
-				// x = 0 is not the abscissa of a point of the twist (5u is a non-square); own class, see G1
-				return mustReject, "x=0", nil
+				// x = 0 is not the abscissa of a point of the twist (5u is a non-square). 03||0..0 is the library's
+				// compressed form of the point at infinity (G2.MarshalCompressed of infinity; pinned by the repository's
+				// Test_G2MarshalCompressed): it must decode to infinity. 02||0..0 may be rejected or accepted as infinity,
+				// but like every accepted input its re-encoding must return the consumed bytes.
+				if e[0] == 3 {
+					return mustAccept, "infinity", make([]byte, 128)
+				}
+				return either, "x=0,prefix=02", make([]byte, 128)
 			}
 			return mustReject, "off-curve", nil
 		},
 		post: func(e, unc []byte) string {
+			if allZero(unc) && allZero(e[1:65]) {
+				return "" // infinity form, judged by the expected element
+			}
 			if !bytes.Equal(unc[:64], e[1:65]) {
 				return "x of the result differs from the encoded x"
 			}
@@ -252,6 +263,9 @@ func (cd *codec) check(t *engine.T, in []byte, desc string, force int) {
 		var re, unc []byte
 		if t.Guard(cd.name+"/marshal", func() { re = d.reenc(); unc = d.unc() }) {
 			return
+		}
+		if cd.name == "g1/unmarshal-compressed" && cls == "x=0(infinity-form)" {
+			re = in[:cd.elem] // G1.MarshalCompressed(infinity) is documented as undefined: not compared
 		}
 		if !bytes.Equal(re, in[:cd.elem]) {
 			t.Fail(cd.name+"/reencode-mismatch", "%s [%s]: decoded %s but re-encoding gives %s", desc, cls, hx(in[:cd.elem]), hx(re))
